@@ -551,9 +551,12 @@ func (c *Ctx) Finish() {
 		for _, e := range c.harnessErr {
 			fmt.Fprintf(os.Stderr, "HARNESS ERROR (not a property verdict): %s\n", firstLines(e, 40))
 		}
-		os.Exit(2)
+		if unknown == 0 {
+			os.Exit(2)
+		}
 	}
 	if unknown > 0 {
+		// a violation that reproduced on every re-execution stands, whatever went wrong in another scenario
 		os.Exit(1)
 	}
 	os.Exit(0)
